@@ -94,7 +94,7 @@ def run(prop, tier=None, replay=None):
         if tier == "quick":
             short = [h for h in hists if len(h) <= 2]
             longer = [h for h in hists if len(h) == 3]
-            longer = longer[chk.seed % 6::6]
+            # every history of length 3 is replayed (with one of the eight final (standard, probe) combinations each)
             hists = short + longer
         cases = []
         combos = [(s, p) for s in ("f2003", "f2008") for p in sorted(PROBES)]
